@@ -108,6 +108,11 @@ class Sink:
             cs = callees(out["rotateIfNeeded"])
             pick("checkDailyRotation", [f for f in cs if len(f.params) == 1 and "QDate" in f.params[0].get("type", "")], "the member rotateIfNeeded() calls with a date")
             pick("checkSizeRotation", [f for f in cs if len(f.params) == 1 and "QDate" not in f.params[0].get("type", "") and "LogMessage" not in f.params[0].get("type", "")], "the member rotateIfNeeded() calls with a size")
+        # a check helper folded into its only caller: the role is played by that caller (the rules look for the guard, not for the name)
+        for role in ("checkSizeRotation", "checkDailyRotation"):
+            if role not in out and "rotateIfNeeded" in out:
+                out[role] = out["rotateIfNeeded"]
+                self.renamed = getattr(self, "renamed", []) + ["%s is folded into rotateIfNeeded" % role]
         missing = [m for m in METHODS if m not in out and m not in self.OPTIONAL]
         if missing:
             raise AnalysisBroken("anchor function(s) %s of RotatingFileSinkPrivate no longer resolve (by name or by role)" % missing)
